@@ -31,6 +31,12 @@ RULE = ("class skeletons = bases {none, one, two, inherited, diamond, base with 
         "Hypothesis. Non-trivial: >= 1 base or metaclass and >= 2 member kinds; distinct by skeleton.")
 
 PRE = '''
+REG = []
+def numbered(n):
+    def d(c):
+        c.number = n
+        return c
+    return d
 class M0(type):
     def __call__(cls, *a, **k):
         r = super().__call__(*a, **k)
@@ -43,6 +49,7 @@ class G0:
     def __init_subclass__(cls, tag=None, **kw):
         super().__init_subclass__(**kw)
         cls.tag = tag
+        REG.append(cls.__name__)
 class G1:
     def who(self):
         return 'G1'
@@ -74,7 +81,9 @@ PV = 'global-pv'
 BASES = {"none": "", "one": "G1", "two": "G0, G1", "inh": "D1", "diamond": "D1, D2", "wm": "WM"}
 META = {"implicit": "", "explicit": "metaclass=M0"}
 KW = {"nokw": "", "kw": "tag='T'"}
-DECO = {"0": "", "1": "@dec1\n", "2": "@dec2\n@dec1\n", "3": "@dec3\n", "13": "@dec1\n@dec3\n"}
+DECO = {"0": "", "1": "@dec1\n", "2": "@dec2\n@dec1\n", "3": "@dec3\n", "13": "@dec1\n@dec3\n",
+        # a decorator EXPRESSION whose value depends on when it is evaluated (before the class exists)
+        "n": "@numbered(len(REG))\n", "n1": "@dec1\n@numbered(len(REG))\n"}
 MEMBERS = {
     "data": "    x = 1\n",
     "computed": "    x = 2\n    y = x * 3\n",
